@@ -128,7 +128,7 @@ Definition good_sheet (name : text) (T : table) (o : key * rows_obs) : bool :=
   && match snd o with
      | Ok rows =>
          forallb (fun r => (length r =? length (t_header T))%nat) rows
-         && res_eqb (list_eqb assoc_eqb) (by_name (t_header T) (snd o)) (expected_by_name T)
+         && res_eqb (list_eqb assoc_eqb) (rows_by_name (t_header T) (snd o)) (expected_by_name T)
      | Err _ => false
      end.
 
